@@ -263,6 +263,34 @@ def run(ctx: Ctx) -> int:
             ctx.violation("rewrite-swap-fresh:" + text2.replace("\n", ";")[:60],
                           f"an equivalent way of writing a SWAP onto a fresh qubit changed the exact output distribution by {dd:.3g}",
                           {"original": text, "rewritten": text2, "det": False, "rule": "swap-onto-fresh-qubit"})
+    # an extra measurement of a fresh qubit in |0> (outcome 0 with certainty) appended after a product measurement, noisy or not, plain or
+    # inverted: the other columns keep their distribution and the new column is 0
+    for text, extra, col in [("H 0\nMPP(0.125) X0*X1\nM 0 1", "MPP Z2", 1), ("H 0 1\nMPP(0.25) !Z0*X1\nMX 0 1", "MPP Z5", 1),
+                             ("H 0\nT 0\nMPP(0.0625) Y0 X1\nM 0 1", "MPP Z2*Z3", 2), ("H 0\nCX 0 1\nMPP X0*X1\nM 0 1", "MPP !Z2", 1),
+                             ("H 0\nM(0.25) 0\nMX 0", "M 1", 1), ("RY 0\nMPP(0.5) Y0\nMY 0", "MPP Z1 Z2", 1)]:
+        lines = text.split("\n")
+        pos = max(i for i, l in enumerate(lines) if l.startswith(("MPP", "M("))) + 1
+        text2 = "\n".join(lines[:pos] + [extra] + lines[pos:])
+        n_extra = len(extra.split()) - 1
+        want_bit = 1 if "!" in extra else 0
+        try:
+            d1, _ = tsim_dist(tsim.Circuit(text))
+            d2, _ = tsim_dist(tsim.Circuit(text2))
+        except Exception as e:
+            ctx.violation("rewrite-raises-extra-measurement:" + text2.replace("\n", ";")[:50], f"tsim raised {e!r} on a rewritten circuit", {"original": text, "rewritten": text2, "det": False})
+            continue
+        marg, off = {}, 0.0
+        for k_, v in d2.items():
+            if any(k_[col + j] != want_bit for j in range(n_extra)):
+                off += v
+            kk = tuple(x for i, x in enumerate(k_) if not (col <= i < col + n_extra))
+            marg[kk] = marg.get(kk, 0.0) + v
+        dd = max(dist_diff(d1, marg), off)
+        ctx.count(("extra-meas", text, text2), nontrivial=True, bucket="extra-deterministic-measurement")
+        if dd > tolerance(True):
+            ctx.violation("rewrite-extra-measurement:" + text2.replace("\n", ";")[:60],
+                          f"appending the measurement `{extra}` of fresh qubits after a (noisy) measurement changed the distribution of the other results by {dd:.3g}",
+                          {"original": text, "rewritten": text2, "det": False, "rule": "extra-deterministic-measurement"})
     done = 0
     for k in range(n * 3):
         if done >= n or time.time() > deadline:
